@@ -156,6 +156,7 @@ def check_unit(template, tree, seed=None, canary=True, tag=""):
     res.gen = gen
     res.unit = gen.meta.get("unit") or name
     res.props = gen.meta.get("props", [])
+    tag = tag.replace(".", "_")
     path = os.path.join(VWORK, "%s%s.rs" % (name, tag))
     with open(path, "w") as fh:
         fh.write(gen.text)
@@ -202,7 +203,7 @@ def check_unit(template, tree, seed=None, canary=True, tag=""):
     res.status = "ok"
     if canary and gen.canary_fns:
         ctext = extract.make_canary(gen)
-        cpath = os.path.join(VWORK, "%s%s.canary.rs" % (name, tag))
+        cpath = os.path.join(VWORK, "%s%s_canary.rs" % (name, tag))
         with open(cpath, "w") as fh:
             fh.write(ctext)
         cj, cd, cerr, cwall, _ = run_verus(cpath)
